@@ -350,6 +350,9 @@ v("C20", "b7-names-case-folded", "break", "middleware/encryptcookie/utils.go", "
 v("C20", "n2-names-slices-contains", "benign", "middleware/encryptcookie/utils.go", "\tfor _, k := range except {\n\t\tif key == k {\n\t\t\treturn true\n\t\t}\n\t}\n\n\treturn false", "\treturn slices.Contains(except, key)", why="slices.Contains performs the same ordered == comparison",
   file2="middleware/encryptcookie/utils.go", find2="import (\n", replace2="import (\n\t\"slices\"\n")
 
+v("C20", "b8-visitor-not-deferred", "break", "middleware/encryptcookie/encryptcookie.go", "\t\tdefer c.Response().Header.VisitAllCookie(func(key, _ []byte) {", "\tc.Response().Header.VisitAllCookie(func(key, _ []byte) {", "response-visitor", "the pass runs before the chain: nothing the handlers set is encrypted")
+v("C20", "n3-deferred-block", "benign", "middleware/encryptcookie/encryptcookie.go", "\t\tdefer c.Response().Header.VisitAllCookie(func(key, _ []byte) {", "\t\tdefer func() {\n\t\tc.Response().Header.VisitAllCookie(func(key, _ []byte) {", why="the pass is wrapped in a deferred function literal", file2="middleware/encryptcookie/encryptcookie.go", find2="\t\t})\n\n\t\t// Continue stack\n\t\treturn c.Next()", replace2="\t\t})\n\t\t}()\n\n\t\t// Continue stack\n\t\treturn c.Next()")
+
 os.makedirs('/verif/selftest', exist_ok=True)
 for prop, vs in V.items():
     p = f'/verif/selftest/{prop.lower()}.json'
